@@ -400,6 +400,68 @@ def work(chunk_id, payload):
     return part
 
 
+def work_resolve(chunk_id, payload):
+    """one unknown reflect solved more than once (two vnacal_new_t of one
+    vnacal_t, re-solves) on different frequency grids with the same or a
+    different number of points: after every successful solve
+    vnacal_get_parameter_value on that solve's grid returns what that solve
+    found (the truth, the data being exact)"""
+    import gen_handles
+    seed, n, binary, workroot = payload
+    part = dict(evaluations=0, counters={}, maxima={}, distinct=set(),
+                samples=[], violations=[], inconclusive=[], harness_errors=[])
+    cnt = part["counters"]
+    cases, gens = [], {}
+    for k in range(n):
+        rng = np.random.default_rng([seed, chunk_id, k, 222])
+        g = gen_handles.ResolveGen(rng)
+        text = g.generate()
+        if text is not None and g.kind == "unknown":
+            cid = "r%d_%d" % (chunk_id, k)
+            cases.append((cid, text))
+            gens[cid] = g
+    wd = os.path.join(workroot, "wr%d" % chunk_id)
+    results = R.run_cases(binary, cases, wd, timeout=1800, watchdog=60)
+    for cid, text in cases:
+        res, g = results[cid], gens[cid]
+        v, inc = R.standard_violations(res, text, PROP)
+        part["violations"] += v
+        part["inconclusive"] += inc
+        if res.status != "ok":
+            continue
+        part["evaluations"] += 1
+        part["distinct"].add(("resolve",) + tuple(g.shape))
+        for c in g.checks:
+            sv, ev = res.ev(c["solve"]), res.ev(c["line"])
+            if sv is None or ev is None or "ret" not in ev or \
+                    sv.get("ret") != 0:
+                continue
+            cnt["resolved_values_checked"] = cnt.get(
+                "resolved_values_checked", 0) + 1
+            worst = float("inf")
+            if len(ev["ret"]) == len(c["truth"]):
+                worst = 0.0
+                for got, want in zip(ev["ret"], c["truth"]):
+                    z = complex(got[0], got[1])
+                    worst = max(worst, abs(z - want) if np.isfinite(z)
+                                else float("inf"))
+            rel = worst / (1e-10 * (1 + c["kappa"]))
+            part["maxima"]["max_param_err_over_bound:resolve"] = max(
+                part["maxima"].get("max_param_err_over_bound:resolve", 0.0),
+                rel if np.isfinite(rel) else 1e300)
+            if not rel <= 1.0:
+                part["violations"].append(dict(
+                    key="%s:resolve:wrong-parameter-value" % PROP,
+                    desc="unknown reflect solved by %s / %s (%s, %s): %s: "
+                         "vnacal_get_parameter_value on that solve's grid "
+                         "returns %s, true values %s" % (
+                             g.shape[2], g.shape[3], g.shape[0], g.shape[1],
+                             c["what"], ev["ret"],
+                             [complex(x) for x in c["truth"]]),
+                    script=text))
+    return part
+
+
 def main():
     chk = R.Check(PROP)
     binary = chk.build("asan")
@@ -410,6 +472,11 @@ def main():
     payloads = [(chk.seed, per // 4, per - per // 4, binary, chk.workroot)
                 for _ in range(nchunks)]
     for part in R.pmap(work, payloads):
+        chk.merge(part)
+    nres = max(2, int((96 if chk.tier == "quick" else 3000) * chk.args.scale)
+               // nchunks)
+    for part in R.pmap(work_resolve, [(chk.seed, nres, binary, chk.workroot)
+                                      for _ in range(nchunks)]):
         chk.merge(part)
     # convergence floor: inside the basin with ordinary settings the solver
     # must converge most of the time
@@ -427,6 +494,8 @@ def main():
              "set plus 1..3 unknowns (single/double reflect, line, partially "
              "unknown matrix) and correlated parameters, tolerances "
              "1e-4..1e-12, iteration limits 1..100, with/without m_error; "
+             "resolve: one unknown solved repeatedly on different grids, its "
+             "value read back after each solve; "
              "distinct = distinct (path, type, shape, form, tolerance, "
              "iteration limit, weighting, #unknowns)",
         min_events=20,
